@@ -123,3 +123,104 @@ Definition tables_recognised_w (jw_tables : list (bytes * bool * list wstmt)) : 
 Definition term_plain (t : bytes) : bool := match t with [] => false | _ => forallb is_alpha t end.
 Definition terms_plain (jw_tables : list (bytes * bool * list wstmt)) : bool :=
   forallb (fun t => forallb (fun s => match s with WProp term _ _ _ _ _ _ => term_plain term | _ => true end) (snd t)) jw_tables.
+
+(* ---------------------------------------------------------------- read tables *)
+Record rflat := mkrf { rf_fid : fid; rf_term : bytes; rf_getter : bytes; rf_conv : bytes; rf_guard : bytes }.
+
+Section CheckR.
+  Variable jw_tables : list (bytes * bool * list wstmt).
+  Variable jr_tables : list (bytes * list rstmt).
+  Variable layout_of : kind -> list fdecl.
+
+  Definition jr_table (name : bytes) : option (list rstmt) :=
+    match find (fun t => bytes_eqb (fst t) name) jr_tables with Some t => Some (snd t) | None => None end.
+
+  Fixpoint flatten_r (depth : nat) (name : bytes) : option (list rflat) :=
+    match depth with
+    | O => None
+    | S d =>
+        match jr_table name with
+        | None => None
+        | Some stmts =>
+            (fix go (l : list rstmt) : option (list rflat) :=
+               match l with
+               | [] => Some []
+               | RProp f t g c gd _ :: r => match go r with Some rs => Some (mkrf f t g c gd :: rs) | None => None end
+               | RDelegate _ fn _ :: r =>
+                   match flatten_r d fn, go r with
+                   | Some a, Some b => Some (a ++ b)
+                   | _, _ => None
+                   end
+               | RUnrecognised _ _ :: _ => None
+               end) stmts
+        end
+    end.
+
+  Definition load_table (k : kind) : bytes := B "JSONLoad" ++ kind_go_name k.
+  Definition reads_of (k : kind) : option (list rflat) := flatten_r 6 (load_table k).
+
+  (* does the getter produce a value of the field's Go type *)
+  Definition getter_fits (ty : gotype) (r : rflat) : bool :=
+    let g := rf_getter r in
+    match ty with
+    | TItem => bytes_eqb g (B "JSONGetItem") || bytes_eqb g (B "JSONGetURIItem")
+    | TItems => bytes_eqb g (B "JSONGetItems")
+    | TNlv => bytes_eqb g (B "JSONGetNaturalLanguageField")
+    | TString => existsb (bytes_eqb g) [B "JSONGetID"; B "JSONGetType"; B "JSONGetMimeType"; B "JSONGetString"; B "JSONGetIRI";
+                                        B "JSONGetLangRefField"; B "JSONGetURIItem"]
+    | TTime => bytes_eqb g (B "JSONGetTime")
+    | TDur => bytes_eqb g (B "JSONGetDuration")
+    | TUint | TInt64 => bytes_eqb g (B "JSONGetInt")
+    | TBool => bytes_eqb g (B "JSONGetBoolean")
+    | TFloat => bytes_eqb g (B "JSONGetFloat")
+    | TSource => bytes_eqb g (B "GetAPSource")
+    | TEndpoints => bytes_eqb g (B "JSONGetActorEndpoints")
+    | TPubKey => bytes_eqb g (B "JSONGetPublicKey")
+    | TOther _ => false
+    end.
+
+  (* a write guard is acceptable when it holds for every set (non-zero) value of the field's Go type *)
+  Definition guard_no_stronger_than_set (ty : gotype) (f : fid) (g : wguard) : bool :=
+    match g with
+    | GNeNil f' => fid_beq f f'
+    | GLenGt0 f' => fid_beq f f' && match ty with TItems | TNlv | TString => true | _ => false end
+    | GNotZeroTime f' => fid_beq f f'
+    | GNe0 f' => fid_beq f f'
+    | GGt0 f' => fid_beq f f' && match ty with TUint => true | _ => false end   (* > 0 loses negative values of signed types *)
+    | GValNonEmpty => true
+    | GOther src => match ty with TPubKey => true | _ => false end
+    end.
+
+  Inductive rbad :=
+  | RBadUnrecognised (k : kind)
+  | RBadMissing (k : kind) (f : fid)
+  | RBadTwice (k : kind) (f : fid)
+  | RBadTerm (k : kind) (f : fid) (read declared : bytes)
+  | RBadGetter (k : kind) (f : fid) (getter : bytes)
+  | RBadForeign (k : kind) (f : fid)
+  | RBadGuard (k : kind) (f : fid).                      (* the write guard is stronger than "is set" *)
+
+  Definition check_kind_r (k : kind) : list rbad :=
+    match reads_of k, entries_of jw_tables k with
+    | Some rs, Some ws =>
+        flat_map (fun d =>
+                    match fd_term d with
+                    | [] => []
+                    | _ =>
+                        match filter (fun r => fid_beq (rf_fid r) (fd_fid d)) rs with
+                        | [] => [RBadMissing k (fd_fid d)]
+                        | [r] =>
+                            (if bytes_eqb (rf_term r) (fd_term d) then [] else [RBadTerm k (fd_fid d) (rf_term r) (fd_term d)])
+                            ++ (if getter_fits (fd_type d) r then [] else [RBadGetter k (fd_fid d) (rf_getter r)])
+                        | _ => [RBadTwice k (fd_fid d)]
+                        end
+                        ++ flat_map (fun w => if forallb (guard_no_stronger_than_set (fd_type d) (fd_fid d)) (wf_guards w)
+                                              then [] else [RBadGuard k (fd_fid d)])
+                                    (filter (entry_for (fd_fid d)) ws)
+                    end) (layout_of k)
+        ++ flat_map (fun r => if existsb (fun d => fid_beq (fd_fid d) (rf_fid r)) (layout_of k) then [] else [RBadForeign k (rf_fid r)]) rs
+    | _, _ => [RBadUnrecognised k]
+    end.
+
+  Definition check_all_r : list rbad := flat_map check_kind_r all_kinds.
+End CheckR.
